@@ -237,6 +237,11 @@ class Elf(BinFormat):
             self.__file.seek(off)
             base = addr
             bytes_ = self.__file.read(size)
+            # only p_filesz bytes are file-backed: what follows them is zero,
+            # up to (the page that holds) the end of the p_memsz bytes.
+            n = ELF_PAGEOFFSET(S.p_vaddr) + S.p_filesz
+            m = ELF_PAGEALIGN(ELF_PAGEOFFSET(S.p_vaddr) + S.p_memsz)
+            bytes_ = bytes_[:n].ljust(max(size, m), b"\x00")
             return {base: bytes_}
         else:
             logger.error("segment not a PT_LOAD [%08x/%0d]" % (S.p_vaddr, S.p_align))
